@@ -135,8 +135,12 @@ def main(argv=None):
         gates = gates(tier)
     for g in gates:
         name, minimum = (g, 1) if isinstance(g, str) else g
-        if counters.get(name, 0) < minimum:
-            inconclusive.append(f"gate {name}={counters.get(name, 0)} < {minimum}")
+        have = sum(counters.get(alt, 0) for alt in name.split("|"))  # "a|b": either counter may satisfy the gate
+        if have < minimum:
+            inconclusive.append(f"gate {name}={have} < {minimum}")
+    for name in getattr(mod, "ZERO_GATES", []):
+        if counters.get(name, 0) != 0:
+            inconclusive.append(f"{name}={counters[name]} (must be 0: the run was disturbed, nothing is concluded from it)")
     if len(sigs) < 2:
         inconclusive.append(f"distinct_nontrivial={len(sigs)} < 2")
 
